@@ -11,7 +11,6 @@ use lol_html::{
     AsciiCompatibleEncoding, LocalName, Namespace, SharedMemoryLimiter, StartTagHandlingResult,
     Token, TokenCaptureFlags, TransformController, TransformStream, TransformStreamSettings,
 };
-use std::panic::{AssertUnwindSafe, catch_unwind};
 
 #[derive(Clone, Debug, PartialEq, Eq)]
 pub enum Tok {
@@ -136,7 +135,7 @@ pub fn capture(doc: &[u8], encoding: &str, strict: bool, cuts: &[usize], flags: 
     let r = {
         let controller = Capturer { flags: TokenCaptureFlags::from_bits_truncate(flags), toks: &mut toks };
         let out_ref = &mut out;
-        catch_unwind(AssertUnwindSafe(move || -> Result<(), RewritingError> {
+        crate::driver::guarded(move || -> Result<(), RewritingError> {
             let mut ts = TransformStream::new(TransformStreamSettings {
                 transform_controller: controller,
                 output_sink: |c: &[u8]| out_ref.extend_from_slice(c),
@@ -159,7 +158,7 @@ pub fn capture(doc: &[u8], encoding: &str, strict: bool, cuts: &[usize], flags: 
                 ts.write(&doc[prev..])?;
             }
             ts.end()
-        }))
+        })
     };
     let result = match r {
         Ok(Ok(())) => Ok(Ok(())),
